@@ -123,8 +123,7 @@ fn norm(s: &str) -> String {
 }
 
 /// Compares the expected output (with markers) with the actual one.
-fn stdout_matches(want: &[u8], got: &str) -> bool {
-    let g = got.as_bytes();
+fn stdout_matches(want: &[u8], g: &[u8]) -> bool {
     let mut i = 0;
     let mut j = 0;
     while i < want.len() {
@@ -199,7 +198,9 @@ fn run_history(alpha: &[Op], hist: &[usize], resume: bool) -> Result<(), (String
             ));
         }
     }
-    if !stdout_matches(&b.stdout, &got) {
+    // byte for byte (a character above 127 is one byte of output); NUL bytes of unwritten record space count as blanks
+    let got_bytes: Vec<u8> = o.stdout.iter().map(|c| if *c == 0 { b' ' } else { *c }).collect();
+    if !stdout_matches(&b.stdout, &got_bytes) {
         return Err(("stdout".into(), format!("expected output {:?}, got {:?}", shown(&b.stdout), got), b.text));
     }
     // the store
